@@ -348,6 +348,15 @@ func c20Scenario(r *vf.Run, t *testing.T, id string, rng *rand.Rand, g genOpts) 
 			}
 		}
 	}
+	for _, ru := range rules {
+		if ru == "pseudo-after-regular" && rng.Intn(2) == 0 {
+			// where a list is malformed by the order of its fields, the fields are also spread over several frames
+			bad.SplitSeed = nil
+			for c := 0; c < 10; c++ {
+				bad.SplitSeed = append(bad.SplitSeed, rng.Intn(1<<20))
+			}
+		}
+	}
 	// the verdict comes from the predicate, not from the labels (two mutations can cancel)
 	wfReason := ""
 	wellFormed, wfReason = wellFormedRequest(append(append([]F{}, bad.Pseudo...), bad.Fields...), bad.Trailers, len(bad.Body))
